@@ -26,7 +26,8 @@ MODULE = "chan/PathLoss.tla"
 ANT = "chan/AntGain.tla"
 MODELS = ["general", "3gpp1", "freespace", "metis", "hata"]
 DEVS = ["FcRejectKeepsValue", "NSetterKeepsC", "FcSetterKeepsC", "ClampArrayOnly", "HataRejectAssigns", "ShadowAfterPolicy",
-        "ZeroInArrayAsUnit", "PlotRestoresPolicyFromShadow", "PlotRaiseLeavesShadowOff"]
+        "ZeroInArrayAsUnit", "PlotRestoresPolicyFromShadow", "PlotRaiseLeavesShadowOff",
+        "ClampLostInFortranLayout", "LinearArrayIgnoresRaise"]
 FID_FC = "C13-freespace-fc-reject-not-atomic"
 FID_Z = "C13-scalar-zero-distance-domain-error"
 FID_PLOT = "C13-plot-raise-leaves-shadow-off"
@@ -131,7 +132,7 @@ def model_cfg(model, tier, dev=(), emit=False, props=True, sel=0):
     cfg = tlc.cfg_text(constants={"Model": tlc.tla(model), "DoEmit": tlc.tla(bool(emit)), "EmitSel": str(sel)},
                        defs=defs,
                        invariants=["TypeOK", "ParamsValid", "CConsistent", "PLisDoc", "Monotone", "InUnit", "Policy",
-                                   "InverseId", "FriisClose", "ShadowRange"],
+                                   "InverseId", "FriisClose", "ShadowRange", "LayoutIndependent", "LinearAgrees"],
                        properties=["RejectLaw", "PlotPure"] if props else [])
     return cfg, defs
 
@@ -227,7 +228,9 @@ def apply_setter(model, o, e):
             o.area_type = arg
         else:
             raise KeyError(op)
-    except (RuntimeError, ValueError, ArithmeticError) as ex:
+    except KeyError:
+        raise
+    except Exception as ex:  # noqa: total - any exception of the code under test is the outcome "raise"
         return o, "raise", f"{type(ex).__name__}: {ex}"
     return o, "ok", ""
 
@@ -252,13 +255,16 @@ def call_lin(model, o, d, w=None):
 
 
 def outcome_of(fn):
-    """('val', x) | ('raise', text) | ('raisevalue', text)"""
+    """('val', x) | ('raise', text) | ('raisevalue', text) | ('error:<Type>', text).  Total: whatever the code under test
+    raises is an OUTCOME that the caller compares with the expected one (a verdict), never a failure of the harness."""
     try:
         return "val", fn()
     except RuntimeError as ex:
         return "raise", str(ex)
     except ValueError as ex:
         return "raisevalue", str(ex)
+    except Exception as ex:  # noqa: anything else the code under test raises
+        return "error:" + type(ex).__name__, f"{type(ex).__name__}: {ex}"
 
 
 def pure_outcome(fn, *args, **kw):
@@ -352,7 +358,16 @@ def any_shape(fn, args, kind0, x0, rel=False):
         cases.append(("2 x n matrix, other arguments broadcast", [np.vstack([args[0], args[0]])] + list(args[1:]), (2, n), 2))
         cases.append(("n x 2 matrix, other arguments as a column", [np.vstack([args[0], args[0]]).T.copy()] +
                       [a.reshape(n, 1) if isinstance(a, np.ndarray) else a for a in args[1:]], (n, 2), -2))
-    for label, aa, sh, rep_ in cases:
+    def layouts(label, aa, sh, rep_):
+        """AnyLayoutSameValue: a matrix as C-ordered, Fortran-ordered (what a transpose is) and as a strided column view"""
+        yield label, aa, sh, rep_
+        if min(sh) > 1:
+            yield label + ", Fortran-ordered", [np.asfortranarray(a) if isinstance(a, np.ndarray) else a for a in aa], sh, rep_
+            yield label + ", transposed view of its C-ordered transpose", [np.ascontiguousarray(a.T).T if isinstance(a, np.ndarray) and a.ndim == 2 else a for a in aa], sh, rep_
+            big = np.zeros((aa[0].shape[0], 2 * aa[0].shape[1]), dtype=aa[0].dtype)
+            big[:, ::2] = aa[0]
+            yield label + ", every second column of a wider matrix", [big[:, ::2]] + list(aa[1:]), sh, rep_
+    for label, aa, sh, rep_ in [c2 for c in cases for c2 in layouts(*c)]:
         k, x = pure_outcome(fn, *aa)
         if k == "impure":
             return f"{label}: {x}"
@@ -456,15 +471,31 @@ def run_query(model, o, q):
                 r = check_elem(x[i], el, model)
                 if r:
                     return f"element {i} (d={dist(q['ks'][i])!r}): {r}"
+        # LinearAgreesWithDb: the linear array query decides raise / clamp like the dB query and is 10^(-dB/10) of it
+        kl, xl = pure_outcome(lambda dd, ww: call_lin(model, o, dd, ww), d, w)
+        if kl == "impure":
+            return "linear array query: " + str(xl)
+        want_l = {"raise": "raise", "arr": "val"}[q.get("lin", exp["t"])]
+        if kl != want_l:
+            return (f"linear array query {'raised ' + str(xl) if kl != 'val' else 'returned ' + repr(xl)}, expected "
+                    f"{'RuntimeError like the dB query (policy: raise)' if want_l == 'raise' else 'values'} (LinearAgreesWithDb)")
+        if kl == "val":
+            xl_ = np.asarray(xl, dtype=float)
+            wl = 10.0 ** (-np.asarray(x, dtype=float) / 10.0)
+            if xl_.shape != wl.shape or not np.all(np.abs(xl_ - wl) <= TOL * wl) or not np.all((xl_ > 0) & (xl_ <= 1)):
+                return f"linear array query returned {xl_.tolist()}, 10^(-dB/10) of the dB query is {wl.tolist()} (LinearAgreesWithDb)"
         if not first_time(model, graph.key(q["pre"]), q["ks"], q["ws"]):
             return None
         lists = model not in ("metis", "hata")  # METIS asserts ndarray with wall arrays; Okumura-Hata compares d < 1.0
         r = sweep(lambda dd, ww: call_dB(model, o, dd, ww), [d, w], kind, x, lists=lists)
-        if r is None and kind == "val":
-            kl, xl = pure_outcome(lambda dd, ww: call_lin(model, o, dd, ww), d, w)
-            r = xl if kl == "impure" else sweep(lambda dd, ww: call_lin(model, o, dd, ww), [d, w], kl, xl, rel=True, lists=lists)
+        if r is None:
+            r = sweep(lambda dd, ww: call_lin(model, o, dd, ww), [d, w], kl, xl, rel=True, lists=lists)
+            r = r and "linear: " + r
         if r is None:
             r = any_shape(lambda dd, ww: call_dB(model, o, dd, ww), [d, w], kind, x)
+        if r is None:
+            r = any_shape(lambda dd, ww: call_lin(model, o, dd, ww), [d, w], kl, xl, rel=True)
+            r = r and "linear: " + r
         if r is None and q.get("scalarw", -1) >= 0:
             sw = int(q["scalarw"])
             for label, f2 in [(f"scalar wall count {sw}", lambda dd: o.calc_path_loss_dB(dd, num_walls=sw)),
@@ -634,6 +665,11 @@ def rel_predicates(model, o, walls=(0,), kmin=-4, kmax=3, per_decade=4, inverse=
         if kind == "impure":
             res["QueryPure"] = xa
             continue
+        if kind != "val":  # LinearAgreesWithDb: the linear array query falls under the same policy
+            kl, la = pure_outcome(lambda dd, ww: call_lin(model, o, dd, ww), grid, wa)
+            if kl != kind:
+                res["PolicyArrayScalar"] = (f"the dB array query raises ({xa}) but the linear array query "
+                                            f"{'returned values' if kl == 'val' else kl + ' ' + str(la)} on the same distances")
         any_raise = any(k != "val" for k, _ in scal)
         if any_raise != (kind != "val"):
             res["PolicyArrayScalar"] = (f"array query {'raised' if kind != 'val' else 'returned values'} while scalar queries "
@@ -643,7 +679,10 @@ def rel_predicates(model, o, walls=(0,), kmin=-4, kmax=3, per_decade=4, inverse=
                 if not close(y, x):
                     res["PolicyArrayScalar"] = f"array element {y!r} differs from the scalar query {x!r}"
                     break
-            r = sweep(lambda dd, ww: call_dB(model, o, dd, ww), [grid, wa], kind, xa) if sweep_key is None or first_time(sweep_key, w) else None
+            r = None
+            if sweep_key is None or first_time(sweep_key, w):
+                r = sweep(lambda dd, ww: call_dB(model, o, dd, ww), [grid, wa], kind, xa) or \
+                    any_shape(lambda dd, ww: call_dB(model, o, dd, ww), [grid, wa], kind, xa)
             if r:
                 res["QueryPure"] = r
             kl, la = pure_outcome(lambda dd, ww: call_lin(model, o, dd, ww), grid, wa)
@@ -805,7 +844,20 @@ def run_path(job):
     """job = (model, [edge index...]) -> (steps_ok, queries_ok, violations)"""
     model, path = job
     g, qs = _G[model]
-    return run_edges(model, g.path_edges(path), qs)
+    return run_edges_total(model, g.path_edges(path), qs)
+
+
+def run_edges_total(model, edges, qs):
+    """comparisons are total: an exception that escapes while a path is compared (the code under test returned or raised
+    something the comparison did not foresee) is reported as a violation of that path, not as a machinery failure"""
+    try:
+        return run_edges(model, edges, qs)
+    except Exception as ex:  # noqa
+        import traceback
+        tb = traceback.format_exc().strip().splitlines()
+        where = next((l.strip() for l in reversed(tb) if "pyphysim" in l), tb[-1])
+        return 0, 0, [{"step": len(edges) - 1, "op": "path", "arg": None,
+                       "what": f"after {[e['op'] for e in edges]}: unexpected {type(ex).__name__}: {ex} ({where})"}]
 
 
 class _Axes:
@@ -1084,6 +1136,18 @@ def run_antenna(ctx, r):
         ctx.sample({"antenna": r.emitted[len(r.emitted) // 2]})
 
 
+def run_antenna_total(ctx, r):
+    """comparisons are total: an exception escaping from the antenna classes while they are compared is a verdict"""
+    try:
+        run_antenna(ctx, r)
+    except Exception as ex:  # noqa
+        import traceback
+        tb = traceback.format_exc().strip().splitlines()
+        where = next((l.strip() for l in reversed(tb) if "pyphysim" in l), tb[-1])
+        ctx.violation(f"antenna gain replay: unexpected {type(ex).__name__}: {ex} ({where})",
+                      {"antenna": r.emitted[0] if r.emitted else None})
+
+
 def ant_cfg(tier, dev=False, emit=True):
     step = 25  # hundredths of a degree: every quarter degree (plus the neighbours of the floor crossing)
     return tlc.cfg_text(constants={"Step": str(step), "DevNoFloor": tlc.tla(bool(dev)), "DoEmit": tlc.tla(bool(emit))},
@@ -1091,7 +1155,7 @@ def ant_cfg(tier, dev=False, emit=True):
 
 
 # ------------------------------------------------------------------------------- the check
-REFUTE = {"ZeroInArrayAsUnit": "general", "PlotRestoresPolicyFromShadow": "3gpp1", "PlotRaiseLeavesShadowOff": "3gpp1",
+REFUTE = {"ClampLostInFortranLayout": "general", "LinearArrayIgnoresRaise": "general", "ZeroInArrayAsUnit": "general", "PlotRestoresPolicyFromShadow": "3gpp1", "PlotRaiseLeavesShadowOff": "3gpp1",
           "ShadowAfterPolicy": "3gpp1", "FcRejectKeepsValue": "freespace", "NSetterKeepsC": "freespace", "FcSetterKeepsC": "freespace",
           "ClampArrayOnly": "general", "HataRejectAssigns": "hata"}
 
@@ -1162,7 +1226,7 @@ def run(ctx):
         k = len(plan[m][2])
         finish_paths(ctx, m, *plan[m], res=back[n:n + k])
         n += k
-    run_antenna(ctx, ra)
+    run_antenna_total(ctx, ra)
     ctx.require_actions(["Ant_sector", "Ant_badsectors", "Ant_omni"])
     c13_trace.report(ctx, trace_result)
     ctx.exhaustive = True
@@ -1176,13 +1240,13 @@ def replay(ctx, data):
     if "antenna" in c:
         r = tlc.TlcResult()
         r.emitted = [c["antenna"]]
-        run_antenna(ctx, r)
+        run_antenna_total(ctx, r)
         return
     if "trace" in c:
         from . import c13_trace
         c13_trace.replay(ctx, c)
         return
-    okc, qc, viol = run_edges(c["model"], c["edges"], c["queries"])
+    okc, qc, viol = run_edges_total(c["model"], c["edges"], c["queries"])
     ctx.ok(n=okc + qc)
     for v in pick(viol):
         if v.get("finding"):
